@@ -10,6 +10,8 @@ case kinds
          ["fail", 0] on the first ValueError  |  ["other", name]
   {"mode": "chips", "chips": [[x, y, level or null], ...]}
       -> ["ok", [word, ...]]
+  {"mode": "enum4", "bx", "by", "a", "b", "cls", "lo", "hi"}   (thorough tier: exhaustive 4 x 4 block)
+      -> ["ok", [[[region, coremask], ...] or exception name, ...]]   one entry per mask in range(lo, hi)
 """
 from collections import OrderedDict
 
@@ -60,7 +62,31 @@ def run_case(c):
                            for x, y, l in c["chips"]]]
         except Exception as e:
             return ["other", type(e).__name__]
+    if c["mode"] == "enum4":
+        # every subset (bit i of mask <-> chip (bx + i % 4, by + i // 4)) of one 4 x 4 block for core a, with
+        # core b following one of four patterns; the cores are inserted chip by chip, a before b
+        outs = []
+        for mask in range(c["lo"], c["hi"]):
+            targets = OrderedDict()
+            for i in range(16):
+                ps = []
+                if mask >> i & 1:
+                    ps.append(c["a"])
+                if enum_b(c["cls"], mask, i):
+                    ps.append(c["b"])
+                if ps:
+                    targets[(c["bx"] + i % 4, c["by"] + i // 4)] = ps
+            try:
+                outs.append([[plain(r), plain(m)] for r, m in compress_flood_fill_regions(targets)])
+            except Exception as e:
+                outs.append(type(e).__name__)
+        return ["ok", outs]
     raise ValueError(c["mode"])
+
+
+def enum_b(cls, mask, i):
+    """Is core b requested on chip i?  0: never, 1: where a is, 2: where a is not, 3: everywhere."""
+    return [False, bool(mask >> i & 1), not (mask >> i & 1), True][cls]
 
 
 if __name__ == "__main__":
